@@ -171,6 +171,14 @@ func numericSpecs() map[string]*specs.Spec {
 		}
 		out["large-many-devices"] = sp
 	}
+	// optional members that are present but empty
+	mk("rdt-present-but-empty", func(e *specs.ContainerEdits) { e.IntelRdt = &specs.IntelRdt{} })
+	{
+		sp := baseSpec()
+		sp.Devices[1].ContainerEdits = specs.ContainerEdits{IntelRdt: &specs.IntelRdt{}}
+		sp.ContainerEdits.IntelRdt = &specs.IntelRdt{}
+		out["device-whose-only-edit-is-an-empty-rdt"] = sp
+	}
 	// spellings of the version the library accepts besides the plain one
 	for _, v := range []string{"v0.6.0", "v1.0.0"} {
 		sp := baseSpec()
